@@ -15,6 +15,13 @@ Monitors
   3. per-block content (type, height, every component's dimensions cold+hot, temperatures, number densities)
      and per-assembly block sequence before/after every operation; blocks designated stationary must stay at
      their core (i,j,k) / (x,y,z) and change owner.
+  4. the PUBLIC lookups after every operation, against the same ledger: getAssemblyWithStringLocation(label) for
+     every cell of the domain (label = "%03d-%03d" of the (ring, pos) the harness obtains by walking each hex ring
+     counter-clockwise as drawn in the docstring; empty cells -> None), getAssemblyByName / getBlockByName for every
+     core and pool member, the names of purged assemblies and blocks (KeyError / None / a present object that now
+     carries that name are the only acceptable answers), getAssembly by number / location / name,
+     getLocationContents (assembly and block level) for a sample of labels and, as its docstring allows, locators.
+  5. the pool's cells: discharged assemblies occupy pairwise distinct cells of the pool grid.
 
 The model never calls the code under test to obtain its expectation: positions come from the generator's own
 cell list, the expected effect of an operation from its docstring, the content snapshot from plain reads.
@@ -25,13 +32,19 @@ PROP = "C14"
 LEVEL = "exploration"
 RULE = (
     "one case = one history of 10-150 operations drawn from {swapAssemblies over random location pairs (plus an all-pairs sweep on small "
-    "cores), swapCascade of 3-6, dischargeSwap(fresh from blueprints | from the pool, outgoing), Core.add(fresh, free in-domain cell), "
+    "cores), swapCascade of 3-6 (a quarter of them with None entries, which the cascade documents as skipped), dischargeSwap(fresh from "
+    "blueprints | from the pool, outgoing), Core.add(fresh, free in-domain cell), "
     "Core.removeAssembly(discharge True/False)} on a generated hex core (rings 2-5, third/full, 2-3 designs, grid plate + random "
-    "fuel/shield/control/plenum blocks, pool grid empty or pre-filled) or on the full test reactor; settings cycle through "
+    "fuel/shield/control/plenum blocks; axial layout of the designs: one shared mesh | one design with two blocks merged into one (fewer "
+    "blocks, conformal mesh) | one design with its own block count and heights under detailedAxialExpansion; pool grid empty, pre-filled, "
+    "the default pool without a grid, or no pool at all) or on the full test reactor; settings cycle through "
     "stationaryBlockFlags in {[], [GRID_PLATE], [GRID_PLATE, PLENUM]} x trackAssems in {on, off}. distinct = (reactor class, symmetry, "
     "rings, settings, the sequence of (operation, cells, outcome)); non-trivial = at least one operation was accepted and moved an assembly."
 )
-TOLERANCES = {"stationary_xyz_rel_pitch": 1e-9, "stored_values": "exact (==, NaN==NaN)"}
+TOLERANCES = {"stationary_xyz_rel_pitch": 1e-9, "stored_values": "exact (==, NaN==NaN)",
+              "stationary_z": "judged for every stationary block of cores whose designs share one axial mesh, and for the bottom block (equal height in "
+                              "every design) of the others; above it, index k of the 'merged' / 'detailed' design has another height or elevation than in "
+                              "its swap partner, which swapAssemblies documents as outside its precondition (it only warns): x, y and (i, j, k) are judged"}
 EXHAUSTIVE = {"quick": False, "thorough": False}
 EXHAUSTIVE_PART = "all unordered location pairs of each small (2-3 ring) generated core in the 'allpairs' cases; everything else sampled"
 FLOORS = {
@@ -41,15 +54,25 @@ FLOORS = {
               "op.dischargeSwap.fresh.accepted": 80, "op.dischargeSwap.sfp.accepted": 30, "op.add.accepted": 100, "op.remove.accepted": 100,
               "op.remove.to-sfp": 20, "op.remove.purged": 40, "tier.testreactor.ops": 300, "allpairs.swaps": 100,
               "hook:Core.add": 500, "hook:Core.removeAssembly": 200, "hook:Assembly.moveTo": 2000, "hook:FuelHandler.swapAssemblies": 1000,
-              "hook:FuelHandler.dischargeSwap": 100},
+              "hook:FuelHandler.dischargeSwap": 100,
+              "public.getAssemblyWithStringLocation": 3000, "public.getAssemblyWithStringLocation.occupied": 45000,
+              "public.getAssemblyWithStringLocation.empty": 40000, "public.getAssemblyByName": 60000, "public.getBlockByName": 250000,
+              "public.purged-name-queries": 45000, "public.getAssembly": 25000, "public.getAssembly.pool-member": 1500,
+              "public.getLocationContents.assemblies": 3000, "public.getLocationContents.blocks": 3000,
+              "public.getLocationContents.empty-refused": 2800, "public.getLocationContents.locator-objects": 800,
+              "ledger.pool-distinct-cells": 1300, "op.cascade.with-none": 70, "op.cascade.none-first": 12,
+              "mesh.merged.ops": 400, "mesh.detailed.ops": 450, "mesh.swap-different-block-counts": 120, "nopool.ops": 400},
 }
 FLOORS["thorough"] = {k: v * 6 for k, v in FLOORS["quick"].items()}
-TIMEOUT = {"quick": 280, "thorough": 3000}
+TIMEOUT = {"quick": 900, "thorough": 3600}
 ASSUMPTIONS = [
     "Flags.fromString / hasFlags (which blocks a stationaryBlockFlags entry designates) are trusted here",
     "initial state: Core.regenAssemblyLists() is called once after construction (as armi.testing.loadTestReactor does) so that assemblies the "
     "blueprint placed in the pool are registered; the gap before that call is recorded under observed, not judged",
     "generated reactors get a real Operator (operators.factory(cs) + initializeInterfaces(r)) for the FuelHandler",
+    "location labels: an assembly's is '%03d-%03d' % (ring, pos) ('001-001' in the docstrings), a block's is that plus '-%03d' % axial index; "
+    "(ring, pos) of a cell comes from the harness's own walk around the ring, never from armi",
+    "a reactor without a pool is obtained as armi's own test does: del r.excore['sfp'] after reactors.factory (which always adds a default pool)",
 ]
 
 SBF_CLASSES = {"none": [], "gridplate": ["GRID_PLATE"], "two": ["GRID_PLATE", "PLENUM"]}
@@ -211,7 +234,11 @@ def ambient(label, a):
             continue
         if sess is not None:
             key = sess.classify(key, obj)
-        if key.endswith("under-former-name"):
+        if key == NOPOOL_KEY:
+            if (key, None) not in reported:
+                reported.add((key, None))
+                rec.violation(key, what, dict(wit(), subject=subject, seen_after=label))
+        elif key.endswith("under-former-name"):
             # appears at whichever later operation purges the owner; the mechanism is the alias, so no operation suffix
             rec.violation(key, what, dict(wit(), subject=subject, seen_after=label))
         else:
@@ -261,6 +288,27 @@ def content_diff(old, new):
     return "?"
 
 
+# ------------------------------------------------------------------------------------------------ location labels
+def ringpos_walk(maxring):
+    """(i, j) -> (ring, pos), by walking: ring r starts at (r-1, 0) (upper right in the flats-up picture of
+    HexGrid.getIndicesFromRingAndPos) and is numbered counter-clockwise, r-1 cells per side: over the top (0, r-1), the upper left
+    (-(r-1), r-1), the lower left (-(r-1), 0), the bottom (0, -(r-1)), the lower right (r-1, -(r-1)) and back."""
+    table = {(0, 0): (1, 1)}
+    for ring in range(2, maxring + 1):
+        i, j, pos = ring - 1, 0, 1
+        for di, dj in ((-1, 1), (-1, 0), (0, -1), (1, -1), (1, 0), (0, 1)):
+            for _ in range(ring - 1):
+                table[(i, j)] = (ring, pos)
+                pos += 1
+                i, j = i + di, j + dj
+        assert (i, j) == (ring - 1, 0) and pos == 6 * (ring - 1) + 1
+    return table
+
+
+def cell_label(ringpos):
+    return "%03d-%03d" % ringpos  # the "001-001" of the docstrings
+
+
 # ------------------------------------------------------------------------------------------------ session (ledger model)
 class Session:
     def __init__(self, rec, r, cs, o, cells, sbf_names, track, info, pitch):
@@ -287,6 +335,11 @@ class Session:
         self.fresh_given_away = set()
         self.nchecks = 0
         self.pending = (set(), set())
+        self.purged_names = []  # (assembly name when it was purged, assembly, [(block name, block)])
+        self.crashed = set()
+        self.mesh = info.get("mesh", "shared")
+        self.nopool_tracked = self.sfp is None and track
+        self.lost = set()  # ids of assemblies/blocks sent to a pool that does not exist (announced before the call, like pending)
         for a in self.core.getChildren():
             ij = tuple(int(x) for x in a.spatialLocator.indices[:2])
             self.at[ij] = a
@@ -296,6 +349,10 @@ class Session:
             for a in self.sfp.getChildren():
                 self.in_sfp.append(a)
                 self.register(a)
+        # labels of every cell an assembly can be at in this session: the domain cells (Core.add targets) and the initial positions (swap targets)
+        everycell = sorted(set(self.cells) | set(self.at))
+        rp = ringpos_walk(max(max(abs(c[0]), abs(c[1]), abs(c[0] + c[1])) for c in everycell) + 1)
+        self.labels = {c: cell_label(rp[c]) for c in everycell}
         MON.armed[id(self.core)] = self
 
     # -- bookkeeping
@@ -340,6 +397,10 @@ class Session:
         """Name the input class of a table finding from what the harness itself did (never from armi's state)."""
         if key.startswith("lookup/blocksByName/present-block-not-found") and id(obj) in self.fresh_given_away:
             return key + "/stationary-block-of-fresh-incoming-handed-to-outgoing"
+        if self.nopool_tracked and "/returns-purged" in key and id(obj) in self.lost:
+            # one mechanism, seen through both tables and every public getter: trackAssems is on, the reactor has no pool, the discharged
+            # assembly (discharge=True; not a purge) therefore went nowhere - and is still answered by name
+            return NOPOOL_KEY
         return key
 
     def leave(self, a, p, to_sfp):
@@ -350,6 +411,7 @@ class Session:
         else:
             self.purged_a.add(id(a))
             self.purged_b.update(id(b) for b in self.seq[id(a)])
+            self.purged_names.append((a.getName(), a, [(b.getName(), b) for b in self.seq[id(a)]]))
 
     # -- full check of the real state against the model
     def check(self, opname, involved=None):
@@ -394,6 +456,19 @@ class Session:
         for a in self.in_sfp:
             if a.parent is not sfp or getattr(a.spatialLocator, "grid", None) is not sfp.spatialGrid:
                 self.viol("location/discharged-assembly-not-in-pool-grid/after-%s" % opname, "%s parent=%s locator=%r" % (a.getName(), a.parent, a.spatialLocator), a.getName())
+        if self.sfp_usable and len(pool) >= 2:
+            # (2c) the pool is a grid of storage cells: whatever cell the operation chose, it holds one assembly
+            rec.hit("ledger.pool-distinct-cells")
+            cellsof = {}
+            for a in pool:
+                loc = a.spatialLocator
+                if getattr(loc, "grid", None) is sfp.spatialGrid:
+                    cellsof.setdefault(tuple(int(x) for x in loc.indices), []).append(a.getName())
+            shared = {c: n for c, n in cellsof.items() if len(n) > 1}
+            if shared:
+                c = sorted(shared)[0]
+                self.viol("location/two-assemblies-one-pool-location/after-%s" % opname,
+                          "pool cell %s holds %s (%d pool cells are shared in all)" % (c, shared[c], len(shared)))
         # (3) contents
         rec.hit("content.sequence")
         rec.hit("content.block")
@@ -436,11 +511,177 @@ class Session:
                 resync = True
                 continue
             now = tuple(float(x) for x in b.spatialLocator.getGlobalCoordinates())
+            if self.mesh != "shared" and ijk[2] > 0:
+                now = now[:2] + xyz[2:]  # index k > 0 may have another height / elevation in the other owner (TOLERANCES.stationary_z)
             if any(abs(u - v) > tol for u, v in zip(now, xyz)):
                 self.viol("stationary/global-coordinates-moved/after-%s" % opname, "stationary block %s at %s: (x,y,z) %r -> %r" % (b.getName(), ijk, xyz, now), b.getName())
                 self.stat[ijk] = (b, now)
         if resync:
             self.resync()
+        else:
+            self.public_lookups(opname, [x for x in (involved or []) if x is not None])
+
+    # -- (4) the public lookups against the ledger ---------------------------------------------------------------------
+    def ask(self, where, f, *a, **kw):
+        """-> ("ok", value) | ("keyerror", exc) | ("crash", exc).  KeyError is how these getters say 'nothing there'."""
+        try:
+            return "ok", f(*a, **kw)
+        except KeyError as e:
+            return "keyerror", e
+        except Exception as e:
+            if where not in self.crashed:
+                self.crashed.add(where)
+                self.rec.crash(where, e, self.witness())
+            return "crash", e
+
+    def rotating(self, items, n, salt=0):
+        """n members of items chosen by the check counter (not by the case rng: the workload does not depend on the monitors)."""
+        if not items:
+            return []
+        m = len(items)
+        out = []
+        for t in range(n):
+            x = items[(self.nchecks * (7 + 4 * t) + 3 * t + salt) % m]
+            if not any(x is y for y in out):
+                out.append(x)
+        return out
+
+    def public_lookups(self, opname, touched):
+        rec, core = self.rec, self.core
+        sfx = "/after-%s" % opname
+        present = {id(a): a for a in list(self.at.values()) + list(self.in_sfp)}
+        present_b = {id(b) for a in present.values() for b in self.seq[id(a)]}
+        # (4a) by location label: every cell of the domain, occupied or empty
+        rec.hit("public.getAssemblyWithStringLocation")
+        nocc = nemp = 0
+        for ij in self.cells:
+            want = self.at.get(ij)
+            st, got = self.ask("getAssemblyWithStringLocation", core.getAssemblyWithStringLocation, self.labels[ij])
+            if st == "crash":
+                break
+            if st == "keyerror":
+                got = None
+            if want is None:
+                nemp += 1
+            else:
+                nocc += 1
+            if got is not want:
+                kind = "present-assembly-not-found" if got is None else ("assembly-returned-for-empty-location" if want is None else "wrong-assembly")
+                self.viol("lookup/getAssemblyWithStringLocation/%s%s" % (kind, sfx), "getAssemblyWithStringLocation(%r) [cell %s] is %s; that cell holds %s"
+                          % (self.labels[ij], ij, got, want.getName() if want is not None else "nothing"))
+        rec.hit("public.getAssemblyWithStringLocation.occupied", nocc)
+        rec.hit("public.getAssemblyWithStringLocation.empty", nemp)
+        # (4b) by name: every member of the core and the pool, every block of theirs
+        na = nb = 0
+        for a in present.values():
+            where = "core" if a.parent is core else "sfp"
+            st, got = self.ask("getAssemblyByName", core.getAssemblyByName, a.getName())
+            na += 1
+            if st != "crash" and (st == "keyerror" or got is not a):
+                self.viol("lookup/getAssemblyByName/%s/%s%s" % ("present-assembly-not-found" if st == "keyerror" or got is None else "wrong-object", where, sfx),
+                          "getAssemblyByName(%r) -> %s, but %s is in the %s" % (a.getName(), got if st == "ok" else "KeyError", a, where))
+            for b in self.seq[id(a)]:
+                st, got = self.ask("getBlockByName", core.getBlockByName, b.getName())
+                nb += 1
+                if st != "crash" and (st == "keyerror" or got is not b):
+                    key = "lookup/getBlockByName/%s/%s" % ("present-block-not-found" if st == "keyerror" or got is None else "wrong-object", where)
+                    if id(b) in self.fresh_given_away:
+                        key += "/stationary-block-of-fresh-incoming-handed-to-outgoing"
+                    self.viol(key + sfx, "getBlockByName(%r) -> %s, but that block is in %s in the %s" % (b.getName(), got if st == "ok" else "KeyError", a, where))
+        rec.hit("public.getAssemblyByName", na)
+        rec.hit("public.getBlockByName", nb)
+        # (4c) names of the purged: KeyError, None, or a present object that now carries the name
+        if self.purged_names:
+            n = len(self.purged_names)
+            nq = 0
+            for t in sorted({n - 1, max(0, n - 2), max(0, n - 3), (self.nchecks * 7) % n, (self.nchecks * 13 + 1) % n, 0}):
+                name, a, blks = self.purged_names[t]
+                for getter, f, kw in (("getAssemblyByName", core.getAssemblyByName, {}), ("getAssembly", core.getAssembly, {"assemblyName": name})):
+                    st, got = self.ask(getter, f, *(() if kw else (name,)), **kw)
+                    nq += 1
+                    if st == "ok" and got is not None and not (id(got) in present and got.getName() == name):
+                        key = "lookup/%s/returns-purged" % getter if got is a else "lookup/%s/returns-object-neither-in-core-nor-pool" % getter
+                        self.viol(self.classify(key, got) if key.endswith("returns-purged") else key, "%s(%r) returns %s, %s" % (getter, name, got,
+                                  "which was purged" if got is a else "the name belonged to a purged assembly"), None if self.nopool_tracked else getter)
+                for bname, b in blks[:2] + blks[-1:]:
+                    st, got = self.ask("getBlockByName", core.getBlockByName, bname)
+                    nq += 1
+                    if st == "ok" and got is not None and not (id(got) in present_b and got.getName() == bname):
+                        key = "lookup/getBlockByName/returns-purged" if got is b else "lookup/getBlockByName/returns-object-neither-in-core-nor-pool"
+                        self.viol(self.classify(key, got) if key.endswith("returns-purged") else key, "getBlockByName(%r) returns %s (current name %s) of the purged %s"
+                                  % (bname, got, got.getName(), name), None if self.nopool_tracked else "getBlockByName")
+            rec.hit("public.purged-name-queries", nq)
+        # (4d) getAssembly by number / location / name: the assemblies the operation touched and a rotating few
+        here = list(self.at.items())
+        # the calls that sort or walk the whole core: every check on the generated cores, every other check on the test reactor's 80 assemblies
+        heavy = len(here) <= 40 or self.nchecks % 2 == 0
+        incore = [(ij, a) for ij, a in here if any(a is x for x in touched)][:4]
+        ntouched = len(incore)
+        for ij, a in self.rotating(here, 2):
+            if not any(a is x for _, x in incore):
+                incore.append((ij, a))
+        ng = 0
+        for t, (ij, a) in enumerate(incore):
+            # by name: everybody sampled; by location (a sort of the core per call): three of the touched and one other; by number: one of each
+            hows = [("assemblyName", {"assemblyName": a.getName()})]
+            if (t < 3 or t == ntouched) and (heavy or t == 0):
+                hows.append(("locationString", {"locationString": self.labels[ij]}))
+            if t in (0, ntouched) and heavy:
+                hows.append(("assemNum", {"assemNum": a.getNum()}))
+            for how, kw in hows:
+                st, got = self.ask("getAssembly", core.getAssembly, **kw)
+                ng += 1
+                if st != "crash" and (st == "keyerror" or got is not a):
+                    self.viol("lookup/getAssembly/by-%s/%s%s" % (how, "present-assembly-not-found" if st == "keyerror" or got is None else "wrong-assembly", sfx),
+                              "getAssembly(%s) -> %s; %s sits at %s %s" % (kw, got if st == "ok" else "KeyError", a.getName(), self.labels[ij], ij))
+        free = self.free_cells()
+        for c in self.rotating(free, 1 if heavy else 0):
+            st, got = self.ask("getAssembly", core.getAssembly, locationString=self.labels[c])
+            ng += 1
+            if st == "ok" and got is not None:
+                self.viol("lookup/getAssembly/by-locationString/assembly-returned-for-empty-location" + sfx, "getAssembly(locationString=%r) [cell %s, empty] -> %s" % (self.labels[c], c, got))
+        rec.hit("public.getAssembly", ng)
+        for p in self.rotating(self.in_sfp, 1 if heavy else 0):
+            rec.hit("public.getAssembly.pool-member")
+            for how, kw in (("assemblyName", {"assemblyName": p.getName()}), ("assemNum+includeSFP", {"assemNum": p.getNum(), "includeSFP": True})):
+                st, got = self.ask("getAssembly", core.getAssembly, **kw)
+                if st != "crash" and (st == "keyerror" or got is not p):
+                    self.viol("lookup/getAssembly/by-%s/pool-member-%s%s" % (how, "not-found" if st == "keyerror" or got is None else "wrong-assembly", sfx),
+                              "getAssembly(%s) -> %s; %s is in the pool" % (kw, got if st == "ok" else "KeyError", p.getName()))
+        # (4e) getLocationContents: labels (assemblies, blocks), an empty cell, locator objects
+        occ = incore[:5]
+        if occ:
+            labels = [self.labels[ij] for ij, _ in occ]
+            wanta = [a for _, a in occ]
+            rec.hit("public.getLocationContents.assemblies")
+            st, got = self.ask("getLocationContents", core.getLocationContents, list(labels), assemblyLevel=True)
+            if st != "crash" and (st == "keyerror" or len(got) != len(wanta) or any(g is not w for g, w in zip(got, wanta))):
+                self.viol("lookup/getLocationContents/assemblies/%s%s" % ("present-assembly-not-found" if st == "keyerror" else "wrong-assemblies", sfx),
+                          "getLocationContents(%s, assemblyLevel=True) -> %s; those cells hold %s" % (labels, got if st == "ok" else "KeyError %s" % got, [a.getName() for a in wanta]))
+            ks = [(self.nchecks + t) % len(self.seq[id(a)]) for t, a in enumerate(wanta)]
+            blabels = ["%s-%03d" % (lab, k) for lab, k in zip(labels, ks)]
+            wantb = [self.seq[id(a)][k] for a, k in zip(wanta, ks)]
+            if heavy:
+                rec.hit("public.getLocationContents.blocks")
+            st, got = self.ask("getLocationContents", core.getLocationContents, list(blabels)) if heavy else ("crash", None)
+            if st != "crash" and (st == "keyerror" or len(got) != len(wantb) or any(g is not w for g, w in zip(got, wantb))):
+                self.viol("lookup/getLocationContents/blocks/%s%s" % ("present-block-not-found" if st == "keyerror" else "wrong-blocks", sfx),
+                          "getLocationContents(%s) -> %s; those places hold %s" % (blabels, got if st == "ok" else "KeyError %s" % got, [b.getName() for b in wantb]))
+            if self.nchecks % 4 == 1:
+                rec.hit("public.getLocationContents.locator-objects")
+                locs = [core.spatialGrid[ij[0], ij[1], 0] for ij, _ in occ]
+                st, got = self.ask("getLocationContents", core.getLocationContents, locs, assemblyLevel=True)
+                if st == "keyerror":
+                    self.viol("lookup/getLocationContents/location-objects-never-found", "getLocationContents([%s], assemblyLevel=True) raises %r although %s sits there; "
+                              "the docstring takes 'location objects or strings'" % (locs[0], got, wanta[0].getName()))
+                elif st == "ok" and (len(got) != len(wanta) or any(g is not w for g, w in zip(got, wanta))):
+                    self.viol("lookup/getLocationContents/location-objects/wrong-assemblies" + sfx, "getLocationContents(%s, assemblyLevel=True) -> %s; those cells hold %s" % (locs, got, [a.getName() for a in wanta]))
+        for c in self.rotating(free, 1 if heavy else 0, salt=5):
+            st, got = self.ask("getLocationContents", core.getLocationContents, [self.labels[c]], assemblyLevel=True)
+            if st == "keyerror":
+                rec.hit("public.getLocationContents.empty-refused")
+            elif st == "ok" and any(g is not None for g in got):
+                self.viol("lookup/getLocationContents/assemblies/object-returned-for-empty-location" + sfx, "getLocationContents([%r], assemblyLevel=True) [cell %s, empty] -> %s" % (self.labels[c], c, got))
 
     def resync(self):
         """After a reported disagreement take the real state as the new model so one defect is reported once."""
@@ -510,20 +751,32 @@ class Session:
         if ka:
             rec.hit("stationary.exchanged")
         rec.hit("op.swap.accepted")
+        if len(sa) != len(sb):
+            rec.hit("mesh.swap-different-block-counts")
         self.moved_any = True
         self.check("swapAssemblies", [a, b])
         return True
 
-    def op_cascade(self, chain):
+    def op_cascade(self, given):
+        """given may contain None: 'Skipping level .. in the cascade because it is None' - the cascade then runs over the others; with None in
+        the first place every swap of the cascade has a None partner and swapAssemblies documents 'Cannot swap None assemblies ... Skipping'."""
         rec = self.rec
+        none_at = [x for x, a in enumerate(given) if a is None]
+        chain = [a for a in given if a is not None]
+        if none_at and none_at[0] == 0:
+            chain = chain[:1]  # nothing moves
         ps = [self.pos(a) for a in chain]
         kss = [self.ks(a) for a in chain]
         aligned = all(k == kss[0] for k in kss)
-        desc = {"op": "swapCascade", "cells": [list(p) for p in ps]}
+        desc = {"op": "swapCascade", "cells": [list(self.pos(a)) if a is not None else None for a in given]}
         self.history.append(desc)
+        if none_at:
+            rec.hit("op.cascade.with-none")
+            if none_at[0] == 0:
+                rec.hit("op.cascade.none-first")
         raised = None
         try:
-            self.fh.swapCascade(list(chain))
+            self.fh.swapCascade(list(given))
         except ValueError as e:
             raised = e
             if aligned or "stationary" not in str(e):
@@ -544,10 +797,11 @@ class Session:
                 x, p = chain[(i + 1) % n], ps[i]
                 for k in kss[0]:
                     self.seq[id(x)][k] = self.stat[p + (k,)][0]
-            if kss[0]:
+            if kss[0] and n > 1:
                 rec.hit("stationary.exchanged")
-            rec.hit("op.cascade.accepted")
-            self.moved_any = True
+            if n > 1:
+                rec.hit("op.cascade.accepted")
+                self.moved_any = True
             self.check("swapCascade", chain)
             return
         if raised is None:
@@ -596,6 +850,8 @@ class Session:
         if ki == ko and not (self.track and self.sfp is not None):
             leaving = [self.seq[id(inc)][k] if k in ko else b for k, b in enumerate(self.seq[id(outgoing)])]
             self.pending = ({id(outgoing)}, {id(b) for b in leaving})
+            if self.nopool_tracked:
+                self.lost |= self.pending[0] | self.pending[1]
         try:
             try:
                 self.fh.dischargeSwap(inc, outgoing)
@@ -664,6 +920,8 @@ class Session:
         to_sfp = discharge and self.track and self.sfp is not None
         if not to_sfp:
             self.pending = ({id(a)}, {id(b) for b in self.seq[id(a)]})
+            if self.nopool_tracked and discharge:
+                self.lost |= self.pending[0] | self.pending[1]
         try:
             try:
                 self.core.removeAssembly(a, discharge=discharge)
@@ -704,7 +962,14 @@ class Session:
             pool = [x for x in here if x is not first and (self.ks(x) == self.ks(first) or rng.random() < 0.15)]
             if len(pool) < n - 1:
                 pool = [x for x in here if x is not first]
-            self.op_cascade([first] + rng.sample(pool, n - 1))
+            chain = [first] + rng.sample(pool, n - 1)
+            if rng.random() < 0.25:
+                # None entries (a findAssembly that found nothing): mostly further down, sometimes in the first place
+                for _ in range(rng.choice([1, 1, 2])):
+                    chain.insert(rng.randint(1, len(chain)), None)
+                if rng.random() < 0.2:
+                    chain.insert(0, None)
+            self.op_cascade(chain)
         elif kind == "dfresh" and here:
             self.op_discharge(rng, "fresh", rng.choice(here))
         elif kind == "dsfp" and here and self.in_sfp:
@@ -751,8 +1016,13 @@ class Session:
 KIND2TYPE = {"fuel": "fuel", "shield": "axial shield", "control": "control", "plenum": "plenum", "reflector": "reflector"}
 
 
-def make_spec(rng, rings, symmetry, sfp_mode):
-    """gen.core_spec with block types that carry flags (grid plate at k=0 of most designs) and an explicit pool grid."""
+def make_spec(rng, rings, symmetry, sfp_mode, mesh="shared"):
+    """gen.core_spec with block types that carry flags (grid plate at k=0 of most designs) and an explicit pool grid.
+
+    mesh: "shared"   - every design has the same block count and heights (gen.core_spec);
+          "merged"   - the last design has two neighbouring blocks above the bottom one merged into one of the summed height (fewer blocks, block
+                       tops still on the reference mesh, 2 axial mesh points in the merged block);
+          "detailed" - the last design has its own block count (one fewer or one more), heights and mesh points: needs detailedAxialExpansion."""
     from vlib import gen
 
     nd = rng.choice([2, 2, 3])
@@ -773,7 +1043,36 @@ def make_spec(rng, rings, symmetry, sfp_mode):
         ad["blocks"] = [ren[b] for b in ad["blocks"]]
     spec["blocks"] = {ren[k]: v for k, v in spec["blocks"].items()}
     specs = [a["specifier"] for a in spec["assemblies"].values()]
-    if sfp_mode != "default":
+    for ad in spec["assemblies"].values():  # gen.core_spec shares one heights list between the designs
+        for f in ("height", "axial mesh points", "xs types", "blocks"):
+            ad[f] = list(ad[f])
+    if mesh != "shared":
+        ad = list(spec["assemblies"].values())[-1]
+        types = layout[ad["specifier"]]
+        n = len(ad["blocks"])
+        if mesh == "merged":
+            k = rng.randint(1, n - 2)
+            for f in ("blocks", "xs types", "axial mesh points"):
+                ad[f].pop(k + 1)
+            types.pop(k + 1)
+            ad["height"][k] = round(ad["height"][k] + ad["height"].pop(k + 1), 6)
+            ad["axial mesh points"][k] = 2
+        else:
+            if n > 2 and rng.random() < 0.5:
+                k = rng.randint(1, n - 1)
+                for f in ("blocks", "xs types"):
+                    ad[f].pop(k)
+                types.pop(k)
+            else:
+                k = rng.randint(1, n - 1)
+                for f in ("blocks", "xs types"):
+                    ad[f].insert(k, ad[f][k])
+                types.insert(k, types[k])
+            # the bottom block (the grid plate of most designs) keeps the common height: 'both assemblies have the same number and same
+            # height of stationary blocks' is the documented precondition of a swap
+            ad["height"] = ad["height"][:1] + [round(rng.uniform(8, 40), 3) for _ in ad["blocks"][1:]]
+            ad["axial mesh points"] = [rng.choice([1, 1, 2, 3]) for _ in ad["blocks"]]
+    if sfp_mode not in ("default", "none"):
         spec["systems"] = {"core": {"grid name": "core", "origin": (0.0, 0.0, 0.0)},
                            "Spent Fuel Pool": {"type": "sfp", "grid name": "sfp", "origin": (5000.0, 5000.0, 6000.0)}}
         n0 = 0 if sfp_mode == "empty" else rng.randint(1, 4)
@@ -794,16 +1093,22 @@ def domain_cells(rings, symmetry):
     return cells
 
 
-def build_generated(rec, rng, rings, symmetry, sbf, track, sfp_mode):
+def build_generated(rec, rng, rings, symmetry, sbf, track, sfp_mode, mesh="shared"):
     from armi import operators
     from vlib import gen
     from vlib.env import quiet
 
-    spec, text, layout = make_spec(rng, rings, symmetry, sfp_mode)
+    spec, text, layout = make_spec(rng, rings, symmetry, sfp_mode, mesh)
+    over = {"trackAssems": track, "stationaryBlockFlags": list(SBF_CLASSES[sbf])}
+    if mesh == "detailed":
+        over["detailedAxialExpansion"] = True  # 'If you want to run a case with non-uniform axial mesh, activate the detailedAxialExpansion setting'
     with quiet():
-        r, cs, bp, _ = gen.build_reactor(text, {"trackAssems": track, "stationaryBlockFlags": list(SBF_CLASSES[sbf])})
+        r, cs, bp, _ = gen.build_reactor(text, over)
         o = operators.factory(cs)
         o.initializeInterfaces(r)
+    if sfp_mode == "none":
+        # a reactor without any pool (armi's own test_removeAssemblyNoSfp makes one the same way); reactors.factory always adds a default one
+        del r.excore["sfp"]
     sfp = r.excore.get("sfp")
     if sfp is not None and len(sfp):
         missing = [a.getName() for a in sfp if a.getName() not in r.core.assembliesByName]
@@ -814,6 +1119,7 @@ def build_generated(rec, rng, rings, symmetry, sbf, track, sfp_mode):
 
 
 WEIGHTS = (40, 10, 14, 8, 14, 14)
+NOPOOL_KEY = "lookup/names/returns-purged/tracked-discharge-from-a-reactor-without-pool"
 
 
 def run_history(rec, sess, rng, nops, sig, sample=False, probes=True):
@@ -837,12 +1143,13 @@ def gen_case(rec, spec, i):
     sbf, track = COMBOS[(i + spec["shard"]) % len(COMBOS)]
     symmetry = rng.choice(["third periodic", "full"])
     rings = rng.randint(2, spec["maxrings"] if symmetry.startswith("third") else max(2, spec["maxrings"] - 1))
-    sfp_mode = "default" if (i + spec["shard"]) % 12 in (0, 7) else rng.choice(["filled", "filled", "empty"])
+    sfp_mode = {0: "default", 7: "default", 3: "none", 10: "none"}.get((i + spec["shard"]) % 12) or rng.choice(["filled", "filled", "empty"])
+    mesh = ("shared", "merged", "shared", "detailed", "shared")[(i + 2 * spec["shard"]) % 5]
     nops = rng.choice([rng.randint(10, 40), rng.randint(40, spec["maxops"])])
     info = {"reactor": "generated", "case_rng": "%s:%d" % (spec["rng"], i), "symmetry": symmetry, "rings": rings, "stationaryBlockFlags": SBF_CLASSES[sbf],
-            "trackAssems": track, "sfp": sfp_mode}
+            "trackAssems": track, "sfp": sfp_mode, "mesh": mesh}
     try:
-        r, cs, o, bspec, layout = build_generated(rec, rng, rings, symmetry, sbf, track, sfp_mode)
+        r, cs, o, bspec, layout = build_generated(rec, rng, rings, symmetry, sbf, track, sfp_mode, mesh)
     except Exception as e:
         rec.crash("build-generated-reactor", e, info)
         return
@@ -853,7 +1160,11 @@ def gen_case(rec, spec, i):
         if [int(f) for f in r.core.stationaryBlockFlagsList] != [int(f) for f in sess.sbf] or bool(r.core._trackAssems) != track:
             rec.violation("settings/fuel-cycle-options-not-applied-to-core", "core has %s / %s" % (r.core.stationaryBlockFlagsList, r.core._trackAssems), info)
         sess.check("construction")
-        run_history(rec, sess, rng, nops, ["gen", symmetry, rings, sbf, track, sfp_mode], sample=i < 1)
+        run_history(rec, sess, rng, nops, ["gen", symmetry, rings, sbf, track, sfp_mode, mesh], sample=i < 1)
+        if mesh != "shared":
+            rec.hit("mesh.%s.ops" % mesh, len(sess.history))
+        if sfp_mode == "none":
+            rec.hit("nopool.ops", len(sess.history))
     finally:
         sess.close()
 
@@ -866,9 +1177,9 @@ def pairs_case(rec, spec, i):
     symmetry = ["third periodic", "full"][i % 2]
     rings = 4 if symmetry.startswith("third") else 3
     info = {"reactor": "generated", "case_rng": "%s:pairs:%d" % (spec["rng"], i), "symmetry": symmetry, "rings": rings, "stationaryBlockFlags": SBF_CLASSES[sbf],
-            "trackAssems": track, "sfp": "filled", "mode": "all-pairs"}
+            "trackAssems": track, "sfp": "filled", "mode": "all-pairs", "mesh": ("shared", "merged", "detailed")[(i // 2) % 3]}
     try:
-        r, cs, o, bspec, layout = build_generated(rec, rng, rings, symmetry, sbf, track, "filled")
+        r, cs, o, bspec, layout = build_generated(rec, rng, rings, symmetry, sbf, track, "filled", info["mesh"])
     except Exception as e:
         rec.crash("build-generated-reactor", e, info)
         return
@@ -883,7 +1194,7 @@ def pairs_case(rec, spec, i):
                 break
             sess.op_swap(sess.at[p], sess.at[q])
             rec.hit("allpairs.swaps")
-        rec.case(["pairs", symmetry, rings, sbf, track, len(pairs), [h.get("outcome") for h in sess.history]], nontrivial=sess.moved_any)
+        rec.case(["pairs", symmetry, rings, sbf, track, info["mesh"], len(pairs), [h.get("outcome") for h in sess.history]], nontrivial=sess.moved_any)
         rec.add("allpairs.cores-swept-completely", 0 if sess.dead else 1)
     finally:
         sess.close()
